@@ -118,7 +118,7 @@ def scalars(draw, bits=256):
     """Scalars for group operations: boundary structure relative to r, multiples of r, 2^bits - d."""
     r = F.R_ORDER
     full = (1 << bits) - 1
-    tag = draw(st.sampled_from(("ints", "ints", "rmult", "top", "lambda", "xpow", "small", "uniform")))
+    tag = draw(st.sampled_from(("ints", "ints", "rmult", "top", "lambda", "xpow", "xdigits", "small", "uniform")))
     if tag == "ints":
         t2, v = draw(ints(bits, r if bits >= 255 else None))
         return "ints-" + t2, v
@@ -139,6 +139,20 @@ def scalars(draw, bits=256):
         c = draw(st.integers(1, 4))
         d = draw(st.integers(-40, 40))
         return tag, (c * ax**i + d) & full
+    if tag == "xdigits" and bits >= 256:
+        # built from base-|x| digits at their boundaries (0, 1, |x|-1, |x|-2, and for the top digit also values >= |x|), optionally
+        # lifted by r or 2r: the decomposition used by the G2 / GT fast paths subtracts r at most once and then divides by |x| three
+        # times, so "digit exactly 0 / |x|-1" and "top digit beyond |x|" are its boundaries
+        ax = -F.X
+        dig = st.one_of(st.sampled_from((0, 0, 1, ax - 1, ax - 2, 2)), st.integers(0, ax - 1))
+        c = [draw(dig) for _ in range(3)]
+        c3 = draw(st.one_of(st.sampled_from((0, 1, ax - 1, ax, ax + 1)), st.integers(0, ax - 1), st.integers(ax, (1 << 64) - 1)))
+        y = c[0] + c[1] * ax + c[2] * ax**2 + c3 * ax**3
+        lift = draw(st.sampled_from((0, 1, 1, 2)))
+        v = y + lift * r
+        if v > full:
+            v = y + r if y + r <= full else y
+        return tag, v & full
     if tag == "small":
         return tag, draw(st.integers(0, 40)) & full
     return tag, draw(st.integers(0, full))
